@@ -237,7 +237,7 @@ func c05R2(c *Ctx) {
 			n, _ := fieldAddrName(st.Addr)
 			return n == "TrzszFilter.dragInputBuffer" && isNilConst(st.Val) == wantNil
 		}
-		hitN, pathN := reachFrom(g.Blocks[0], 0, isReturn, func(in ssa.Instruction) bool { return isBufStore(in, true) })
+		hitN, pathN := reachFrom(g.Blocks[0], 0, isReturn, c.orWrapper("drag-buffer=nil", func(in ssa.Instruction) bool { return isBufStore(in, true) }))
 		c.check(hitN == nil, "sendInput$1/gives-the-buffer-up", c.pos(g.Pos()), "the delayed flush clears the pending buffer on every path", "the delayed flush can end with the pending buffer still set: all later input is appended to it and never reaches the server", c.pathStr(pathN)...)
 		nSet := 0
 		eachInstr(f, func(in ssa.Instruction) {
